@@ -3,7 +3,11 @@
 
 package backend
 
-import "time"
+import (
+	"time"
+
+	proto "github.com/kubewharf/kubebrain-client/api/v2rpc"
+)
 
 // VerifSetRetryIntervals overrides the async retry timing (read by NewBackend).
 func VerifSetRetryIntervals(retry, check time.Duration) {
@@ -14,4 +18,9 @@ func VerifSetRetryIntervals(retry, check time.Duration) {
 // VerifSetEventsTTL overrides the TTL (seconds) of event keys (read by NewBackend and create).
 func VerifSetEventsTTL(seconds int64) {
 	eventsTTL = seconds
+}
+
+// VerifFields exposes the result of a cache lookup to the verification harness.
+func (f *FindRet) VerifFields() (empty, high, low bool, newest, oldest *proto.Event, events []*proto.Event) {
+	return f.empty, f.high, f.low, f.newest, f.oldest, f.events
 }
